@@ -29,7 +29,7 @@ ENTRIES = {
                 "is not the one at the requested coordinates) and TLC checks that the verifier design (NMT verification "
                 "transcribed from nmt-rs, evaluated on injective hash terms) meets it. Every case is concretised on real "
                 "ExtendedDataSquares (widths 2..16 quick, ..64 thorough; three coordinate scalings) with pairwise "
-                "distinct shares and real proofs, sent through Sample encode/decode and Sample::verify, and compared "
+                "distinct shares and real proofs, observed at two points -- Sample encode/decode(id) + verify(id), and Sample::verify(id) called directly on an in-memory Sample assembled from the parts (not decoded under the target id) -- and compared "
                 "with the demanded verdict; panics are violations.",
         "design_ref": "7 C04, A.7",
         "note": "Collision-freeness of SHA-256/NMT is assumed (hashes are constructors). The shrex ResponseCodec and "
